@@ -745,7 +745,7 @@ where
                 // Collect all existing key-value pairs
                 let mut existing_entries = Vec::new();
                 for entry in entries.iter() {
-                    if entry.hash != 0 {
+                    if entry.hash != 0 && entry.hash != u64::MAX {
                         existing_entries.push((entry.key.clone(), entry.value.clone(), entry.hash));
                     }
                 }
@@ -1371,7 +1371,7 @@ where
                 while self.index < entries.len() {
                     let entry = &entries[self.index];
                     self.index += 1;
-                    if entry.hash != 0 {
+                    if entry.hash != 0 && entry.hash != u64::MAX {
                         return Some((&entry.key, &entry.value));
                     }
                 }
